@@ -14,8 +14,10 @@ import (
 	"fmt"
 	"io"
 	"os"
+	"sort"
 	"strings"
 
+	"github.com/dolthub/dolt/go/store/pool"
 	"github.com/dolthub/dolt/go/store/prolly"
 	"github.com/dolthub/dolt/go/store/prolly/tree"
 	"github.com/dolthub/dolt/go/store/val"
@@ -57,9 +59,254 @@ type Case struct {
 	BFromA bool      `json:"b_from_a,omitempty"`
 	EditsB [][]editj `json:"edits_b"`
 	Ops    []Op      `json:"ops"`
+	Comp   *CompCase `json:"comp,omitempty"` // composite-key / prefix-range sub-case (RangeDiffMaps only)
 }
 
 var ctx = context.Background()
+
+// ---------------------------------------------------------------- composite keys, prefix ranges
+//
+// RangeDiffMaps over maps with a two-field key (a, b) and a PrefixRange on |a| that carries the PREFIX
+// descriptor (the way PrefixRange is called throughout dolt).  Oracle (from the property statement):
+// the key-wise diff of the two materialised row lists on the FULL key, restricted to keys whose first
+// field equals the prefix.  No Lean model is involved here (the model's keys are single byte strings).
+
+type compRow struct {
+	A uint32 `json:"a"`
+	B uint32 `json:"b"`
+	V uint32 `json:"v"`
+}
+
+type CompCase struct {
+	HasVal bool      `json:"has_val"`
+	From   []compRow `json:"from"`
+	To     []compRow `json:"to"`
+	Prefix uint32    `json:"prefix"`
+}
+
+var (
+	compKD   = val.NewTupleDescriptor(val.Type{Enc: val.Uint32Enc}, val.Type{Enc: val.Uint32Enc})
+	compVD   = val.NewTupleDescriptor(val.Type{Enc: val.Uint32Enc, Nullable: true})
+	compVD0  = val.NewTupleDescriptor()
+	compPool = pool.NewBuffPool()
+)
+
+func compLess(x, y compRow) bool { return x.A < y.A || (x.A == y.A && x.B < y.B) }
+
+func compNorm(rows []compRow) []compRow {
+	sort.SliceStable(rows, func(i, j int) bool { return compLess(rows[i], rows[j]) })
+	out := rows[:0:0]
+	for _, r := range rows {
+		if len(out) > 0 && out[len(out)-1].A == r.A && out[len(out)-1].B == r.B {
+			continue
+		}
+		out = append(out, r)
+	}
+	return out
+}
+
+func compBuild(ns tree.NodeStore, rows []compRow, hasVal bool) (prolly.Map, error) {
+	vd := compVD0
+	if hasVal {
+		vd = compVD
+	}
+	kb := val.NewTupleBuilder(compKD, ns)
+	vb := val.NewTupleBuilder(vd, ns)
+	tups := make([]val.Tuple, 0, 2*len(rows))
+	for _, r := range rows {
+		kb.PutUint32(0, r.A)
+		kb.PutUint32(1, r.B)
+		k, err := kb.Build(ctx, compPool)
+		if err != nil {
+			return prolly.Map{}, err
+		}
+		if hasVal {
+			vb.PutUint32(0, r.V)
+		}
+		v, err := vb.Build(ctx, compPool)
+		if err != nil {
+			return prolly.Map{}, err
+		}
+		tups = append(tups, k, v)
+	}
+	return prolly.NewMapFromTuples(ctx, ns, compKD, vd, tups...)
+}
+
+// key-wise diff on the full key, restricted to first field == prefix
+func compExpected(from, to []compRow, prefix uint32, hasVal bool) []string {
+	var out []string
+	emit := func(t string, r compRow, f, v string) {
+		if r.A == prefix {
+			out = append(out, fmt.Sprintf("%s(%d,%d)%s>%s", t, r.A, r.B, f, v))
+		}
+	}
+	vs := func(r compRow) string {
+		if !hasVal {
+			return "-"
+		}
+		return fmt.Sprint(r.V)
+	}
+	i, j := 0, 0
+	for i < len(from) || j < len(to) {
+		switch {
+		case j >= len(to) || (i < len(from) && compLess(from[i], to[j])):
+			emit("R", from[i], vs(from[i]), "_")
+			i++
+		case i >= len(from) || compLess(to[j], from[i]):
+			emit("A", to[j], "_", vs(to[j]))
+			j++
+		default:
+			if hasVal && from[i].V != to[j].V {
+				emit("M", from[i], vs(from[i]), vs(to[j]))
+			}
+			i++
+			j++
+		}
+	}
+	return out
+}
+
+func compImpl(ns tree.NodeStore, c *CompCase) string {
+	return hx.Recover(func() string {
+		from, err := compBuild(ns, c.From, c.HasVal)
+		if err != nil {
+			return "err " + err.Error()
+		}
+		to, err := compBuild(ns, c.To, c.HasVal)
+		if err != nil {
+			return "err " + err.Error()
+		}
+		pd := compKD.PrefixDesc(1)
+		pb := val.NewTupleBuilder(pd, ns)
+		pb.PutUint32(0, c.Prefix)
+		p, err := pb.Build(ctx, compPool)
+		if err != nil {
+			return "err " + err.Error()
+		}
+		rng, err := prolly.PrefixRange(ctx, p, pd)
+		if err != nil {
+			return "err " + err.Error()
+		}
+		var out []string
+		vd := compVD0
+		if c.HasVal {
+			vd = compVD
+		}
+		vs := func(t []byte) string {
+			if t == nil {
+				return "_"
+			}
+			if !c.HasVal {
+				return "-"
+			}
+			v, ok := vd.GetUint32(0, val.Tuple(t))
+			if !ok {
+				return "null"
+			}
+			return fmt.Sprint(v)
+		}
+		err = prolly.RangeDiffMaps(ctx, from, to, rng, func(_ context.Context, d tree.Diff) error {
+			k := val.Tuple(d.Key)
+			a, _ := compKD.GetUint32(0, k)
+			b, _ := compKD.GetUint32(1, k)
+			t := "?"
+			switch d.Type {
+			case tree.AddedDiff:
+				t = "A"
+			case tree.RemovedDiff:
+				t = "R"
+			case tree.ModifiedDiff:
+				t = "M"
+			}
+			out = append(out, fmt.Sprintf("%s(%d,%d)%s>%s", t, a, b, vs(d.From), vs(d.To)))
+			return nil
+		})
+		if err != nil && err != io.EOF {
+			return "err " + err.Error()
+		}
+		return "ok [" + strings.Join(out, " ") + "]"
+	})
+}
+
+func genComp(r *hx.Rng) *CompCase {
+	c := &CompCase{HasVal: !r.Chance(1, 3)}
+	numA := r.Range(2, 9)
+	span := r.Range(4, 40)
+	for a := 0; a < numA; a++ {
+		n := r.Range(0, span)
+		for i := 0; i < n; i++ {
+			c.From = append(c.From, compRow{A: uint32(3 * a), B: uint32(r.Intn(2 * span)), V: uint32(r.Intn(1000))})
+		}
+	}
+	c.From = compNorm(c.From)
+	c.Prefix = uint32(3 * r.Intn(numA))
+	if r.Chance(1, 12) {
+		c.Prefix++ // a prefix no row has
+	}
+	to := append([]compRow{}, c.From...)
+	// edits: mostly under the prefix, some elsewhere; deletes, inserts sharing the prefix, re-pointed suffixes, updates
+	ne := r.Range(0, 8)
+	for e := 0; e < ne; e++ {
+		pa := c.Prefix
+		if r.Chance(1, 4) {
+			pa = uint32(3 * r.Intn(numA))
+		}
+		var idx []int
+		for i, row := range to {
+			if row.A == pa {
+				idx = append(idx, i)
+			}
+		}
+		switch k := r.Intn(5); {
+		case k == 0 && len(idx) > 0: // delete
+			i := idx[r.Intn(len(idx))]
+			to = append(to[:i:i], to[i+1:]...)
+		case k == 1: // insert
+			to = append(to, compRow{A: pa, B: uint32(r.Intn(2 * span)), V: uint32(r.Intn(1000))})
+		case k == 2 && len(idx) > 0: // re-point: delete + insert differing only in the key suffix
+			i := idx[r.Intn(len(idx))]
+			row := to[i]
+			row.B = row.B + 1 + uint32(r.Intn(3))
+			to = append(to[:i:i], to[i+1:]...)
+			to = append(to, row)
+		case k == 3 && len(idx) > 0: // update
+			i := idx[r.Intn(len(idx))]
+			to[i].V = uint32(1000 + r.Intn(1000))
+		default:
+			to = append(to, compRow{A: pa, B: uint32(2*span + r.Intn(5)), V: 7})
+		}
+		to = compNorm(to)
+	}
+	c.To = compNorm(to)
+	if r.Chance(1, 2) {
+		c.From, c.To = c.To, c.From
+	}
+	return c
+}
+
+func runComp(e *hx.Env, ns tree.NodeStore, c *Case) {
+	cc := c.Comp
+	want := "ok [" + strings.Join(compExpected(cc.From, cc.To, cc.Prefix, cc.HasVal), " ") + "]"
+	got := compImpl(ns, cc)
+	e.Rep.Hit("op:rdiff-prefix")
+	if cc.HasVal {
+		e.Rep.Hit("prefix:with-values")
+	} else {
+		e.Rep.Hit("prefix:empty-values")
+	}
+	under := 0
+	for _, r := range cc.From {
+		if r.A == cc.Prefix {
+			under++
+		}
+	}
+	nontrivial := want != "ok []" && under > 1
+	e.Rep.Count(fmt.Sprintf("comp|%d|%v|%d|%v|%v", c.M, cc.HasVal, cc.Prefix, cc.From, cc.To), nontrivial)
+	e.Rep.Sample(map[string]any{"kind": c.Kind, "m": c.M, "prefix": cc.Prefix, "rows": []int{len(cc.From), len(cc.To)}, "impl": trunc(got), "want": trunc(want)})
+	if got != want {
+		e.Rep.Violate("RangeDiffMaps/prefix-range-composite-key", fmt.Sprintf("RangeDiffMaps over PrefixRange(a=%d) with the prefix descriptor on a two-field key: real differ reports %s, the key-wise diff of the row lists restricted to that prefix says %s", cc.Prefix, firstDiff(got, want), ""), *c)
+	}
+}
 
 func toKVJ(kvs []pk.KV) []kvj {
 	out := make([]kvj, len(kvs))
@@ -650,6 +897,13 @@ func modelLine(ida, idb int, op Op) string {
 }
 
 func runCase(e *hx.Env, sh *pk.Shipper, ns tree.NodeStore, c *Case) {
+	if c.Comp != nil {
+		if c.M > 0 {
+			pk.Modulus = c.M
+		}
+		runComp(e, ns, c)
+		return
+	}
 	a, b := realise(ns, c)
 	if sh.Len() > 20000 {
 		sh.Reset()
@@ -776,7 +1030,7 @@ func firstDiff(x, y string) string {
 func main() {
 	e := hx.Init("prollydiff", "C13")
 	defer e.Finish()
-	e.Rep.Rule = "pairs of prolly maps built through the public API under an injected deterministic splitter (modulus 2–6 ⇒ 3–7 levels for 60–380 keys), related by edit scripts biased to chunk boundaries / whole-leaf deletes / inserted runs / re-cased keys / NULL-suffix aliases / height changes, plus unrelated and empty sides; per pair: DiffMaps (cam on/off, value descriptor same/different), RangeDiffMaps and DiffMapsKeyRange with ends inside subtrees shared by both versions, at leaf boundaries, before first / after last, on existing / absent / re-cased keys, inverted, unbounded. nontrivial = the two versions share ≥1 node and differ in ≥1 key within the range, or a range end lies in a shared subtree / at a leaf boundary, or heights differ; distinct by (modulus, both root hashes, op, expected events)"
+	e.Rep.Rule = "pairs of prolly maps built through the public API under an injected deterministic splitter (modulus 2–6 ⇒ 3–7 levels for 60–380 keys), related by edit scripts biased to chunk boundaries / whole-leaf deletes / inserted runs / re-cased keys / NULL-suffix aliases / height changes, plus unrelated and empty sides; per pair: DiffMaps (cam on/off, value descriptor same/different), RangeDiffMaps and DiffMapsKeyRange with ends inside subtrees shared by both versions, at leaf boundaries, before first / after last, on existing / absent / re-cased keys, inverted, unbounded; every 6th case: RangeDiffMaps over maps with a two-field key (a, b) (default comparator, with or without values) and PrefixRange(a = p) carrying the PREFIX descriptor, edits that delete / insert / re-point keys sharing the prefix, checked against the key-wise diff on the full key restricted to that prefix (no model). nontrivial = the two versions share ≥1 node and differ in ≥1 key within the range, or a range end lies in a shared subtree / at a leaf boundary, or heights differ; distinct by (modulus, both root hashes, op, expected events)"
 	pk.SelfCheck()
 	restore := pk.InstallSplitter()
 	defer restore()
@@ -808,6 +1062,12 @@ func main() {
 			ns = pk.NewNodeStore() // keep the in-memory store small
 		}
 		r := e.Rng.Fork()
+		if i%6 == 5 {
+			m := r.Range(2, 6)
+			pk.Modulus = m
+			runCase(e, sh, ns, &Case{M: m, Kind: "composite-prefix", Comp: genComp(r)})
+			continue
+		}
 		c := genCase(r, ns)
 		a, b := realise(ns, c)
 		c.Ops = genOps(r, a, b)
